@@ -85,7 +85,7 @@ expr:
         T_VARIABLE { }
     |   expr '+' expr { }
     |   expr '-' expr { }
-    |   expr '*' expr { }
+    |   expr '*' expr %prec T_INC { }
     |   expr T_POW expr { }
     |   expr T_COALESCE expr { }
     |   expr T_INSTANCEOF T_VARIABLE { }
